@@ -45,6 +45,7 @@ type c06World struct {
 	model  [48]byte // the bytes the writer produced, in order
 	mlen   int      // produced
 	flushed int     // flushed successfully
+	hold    int
 	consumed int
 }
 
@@ -94,6 +95,7 @@ func c06Setup() *c06World {
 	debugMode = true // openCircuitBreaker then does nothing (it only arms a 30 s timer otherwise)
 	// exhaustion: the environment holds `hold` buffers of every class (0 .. everything allocatable)
 	hold := vfShape("hold", 0, 3)
+	w.hold = hold
 	for i := range w.bmA.lists {
 		for k := 0; k < hold; k++ {
 			w.bmA.lists[i].pop()
@@ -219,9 +221,11 @@ func (w *c06World) drain() {
 func (w *c06World) allBack() bool {
 	for i := range w.bmA.lists {
 		l := w.bmA.lists[i]
-		held := 0
-		_ = held
-		if int(*l.size) != computeFreeSliceNum(l) {
+		h := w.hold
+		if h > int(*l.cap)-1 {
+			h = int(*l.cap) - 1
+		}
+		if int(*l.size) != int(*l.cap)-h || int(*l.size) != computeFreeSliceNum(l) {
 			return false
 		}
 	}
@@ -245,6 +249,7 @@ func H_C06_writer() {
 	w.deliver()
 	w.drain()
 	w.sB.BufferReader().ReleasePreviousRead()
+	vfAssert(w.allBack(), "C09.all-buffers-back-after-read-and-release")
 	vfCover("C06.writer.end")
 }
 
@@ -267,5 +272,6 @@ func H_C06_reader() {
 	}
 	w.drain()
 	w.sB.BufferReader().ReleasePreviousRead()
+	vfAssert(w.allBack(), "C09.all-buffers-back-after-read-and-release")
 	vfCover("C06.reader.end")
 }
